@@ -56,6 +56,7 @@ type c03Expect struct {
 	Len2     [][]string `json:"lenient2,omitempty"`
 	HasRows2 bool       `json:"has_rows2,omitempty"`
 	Wrap     string     `json:"wrap,omitempty"`      // "" | derived | cte: the grouped query sits in a derived table / CTE
+	Dims     []int      `json:"dims,omitempty"`      // wrap dims (FROM d.items over [[rows], NULL, [rows]]): number of expected rows per inner table
 	OverJoin bool       `json:"over_join,omitempty"` // the grouped rows come from a join: only run-to-run identity is decided
 	Rows     []any      `json:"rows"`                // expected exact sequence
 	Lenient  [][]string `json:"lenient"`             // per output row: aliases whose value the statement leaves open
@@ -562,9 +563,28 @@ func genC03(t *rapid.T) *Bundle {
 		second = &cp
 		q2 := "SELECT " + strings.Join(sel, ", ") + " FROM t WHERE " + cp.Where.sql()
 		q = "WITH c1 AS (" + q + "), c2 AS (" + q2 + ") SELECT (SELECT * FROM `<-c1`) AS a, (SELECT * FROM `<-c2`) AS b FROM dual"
+	case w == 4 && n >= 2 && !wide:
+		// the rows live one level down, in some documents only: FROM d.items reads [[rows], NULL, [rows]] - every
+		// inner array is a table of its own, grouped and aggregated by itself
+		e.Wrap = "dims"
+		q = strings.Replace(q, " FROM t", " FROM d.items", 1)
+	case w == 5 && whole && n >= 1:
+		// FROM dual: the document is the one row of the table (the columns of the first row are put at its top level)
+		e.Wrap = "dual"
+		q = strings.Replace(q, " FROM t", " FROM dual", 1)
 	}
 	e.Query = q
 	rows, lenient, ok := referenceGroupBy(e, table)
+	if e.Wrap == "dual" {
+		rows, lenient, ok = referenceGroupBy(e, table[:1])
+	}
+	if e.Wrap == "dims" {
+		half := n / 2
+		r1, l1, ok1 := referenceGroupBy(e, table[:half])
+		r2, l2, ok2 := referenceGroupBy(e, table[half:])
+		rows, lenient, ok = append(append([]any{}, r1...), r2...), append(append([][]string{}, l1...), l2...), ok1 && ok2
+		e.Dims = []int{len(r1), len(r2)}
+	}
 	if e.Wrap == "derived" {
 		for i := range rows {
 			rows[i] = map[string]any{"d": rows[i]}
@@ -615,7 +635,18 @@ func genC03(t *rapid.T) *Bundle {
 		tags = append(tags, "prelude:order_limit")
 	}
 	ops = append(ops, casefmt.Op{Doc: 0, Vars: -1, Query: q, ExecTwice: rapid.Bool().Draw(t, "exec_twice")})
-	c := oneClientCase("C03", sim, map[string]any{"t": table}, ops...)
+	doc := map[string]any{"t": table}
+	if e.Wrap == "dual" {
+		for k, v := range table[0].(map[string]any) {
+			doc[k] = v
+		}
+		tags = append(tags, "dual")
+	}
+	if e.Wrap == "dims" {
+		doc["d"] = []any{map[string]any{"id": 1.0, "items": table[:n/2]}, map[string]any{"id": 2.0}, map[string]any{"id": 3.0, "items": table[n/2:]}}
+		tags = append(tags, "dims")
+	}
+	c := oneClientCase("C03", sim, doc, ops...)
 	c.NativeInts = rapid.Bool().Draw(t, "native_ints")
 	return &Bundle{Prop: "C03", Kind: map[bool]string{true: "whole_table", false: "group_by"}[whole], Case: c, Expect: mustJSON(e), Tags: tags}
 }
@@ -715,6 +746,20 @@ func evalC03(b *Bundle, r *Runner) []*Violation {
 			continue
 		}
 		got, ok := asArray(normJSON(op.Rows))
+		if e.Wrap == "dims" && ok {
+			// one result per inner table, in the order of the source; their rows are compared in sequence
+			flat := []any{}
+			ok = len(got) == len(e.Dims)
+			for i := 0; ok && i < len(got); i++ {
+				inner, isArr := asArray(got[i])
+				if got[i] == nil {
+					inner, isArr = []any{}, true
+				}
+				ok = isArr && len(inner) == e.Dims[i]
+				flat = append(flat, inner...)
+			}
+			got = flat
+		}
 		bad := !ok || len(got) != len(e.Rows)
 		if !bad {
 			for i := range got {
